@@ -15,6 +15,7 @@ from props.c10 import gqmat, gqlist
 
 PROP = "C11"
 LEVEL = "proof"
+INCLUDE = ["w4s_c11"]     # w4-skel: generated control-flow skeleton of the MU loop (Props/W4SC11.v) + replay stream sk_mu
 GEN_UNITS = []
 SHARD = 8
 COQ_TARGETS = ["Props/C11.vo", "Props/C11w4.vo", "Model/C11Check.vo", "Model/C11Replay.vo", "Model/C11Lbfgs.vo", "Model/Harness.vo"]
@@ -32,18 +33,36 @@ RULE = ("count tensors <= 4x3x2 (2- to 4-way; random fill, an emptied slice, emp
         "(dead components); op zero_row: MU from a guess with an all-zero row over observed counts (objective -inf, infinities compared "
         "explicitly); op phi_sp: calculate_pi/calculate_phi on sparse and dense holders vs the Qc models; op mu_model: the executable Coq "
         "MU model run side by side; data, guess and aliasing of the result observed for purity on every run; stop reason and nInnerIters "
-        "bounds on every ordinary run; non-trivial = data not all zero; distinct = distinct (op,args)")
-CORRESPONDENCE_ONLY = ["Newton / L-BFGS search directions, step lengths and the line-search decisions (oracles of Model/C11Rows.v): proved for "
-                       "every oracle are non-negativity and the bookkeeping (C11_rows_nonneg, C11_rows_inner_bound, C11_proj_nonneg); the tie of the PDNR/PQNR "
-                       "state machine to the code is by its consequences on observed runs (lengths, signs, stop reason, inner-count bounds), "
-                       "not by a side-by-side run",
+        "bounds on every ordinary run; wave 4: every pdnr run of op cp_apr and every completing pqnr run of op pqnr_result is RECORDED "
+        "(wrappers around pyttb.cp_apr.calc_partials / calc_grad / tt_linesearch_prowsubprob, position read from the caller's frame) and "
+        "replayed through the Qc instance of Model/C11Rows.v with the recorded gradients / line-search answers as table oracles "
+        "(final tensor, KKT list, nInnerIters; traces with <= 150 (quick) / 100 (thorough) table entries); op pqnr_f1_state: the L-BFGS pair "
+        "bookkeeping predicts exactly whether (and in which row) the C11-F1 assertion is raised; op lbfgs_dir: get_search_dir_pqnr called "
+        "directly vs its Qc transliteration; non-trivial = data not all zero; distinct = distinct (op,args)")
+CORRESPONDENCE_ONLY = ["damped-Newton search direction (get_search_dir_pdnr), step lengths and the line-search decisions (oracles of Model/C11Rows.v): proved "
+                       "for every oracle are non-negativity and the bookkeeping (C11_rows_nonneg, C11_rows_inner_bound, C11_proj_nonneg, and for the "
+                       "executed Qc instance C11_rows_replay_nonneg); since wave 4 the PDNR/PQNR state machine is tied to the code SIDE BY SIDE: "
+                       "recorded gradients and line-search answers are fed to the model as tables, everything else (zero-row patch, normalise, "
+                       "redistribute, row-empty test, row KKT value, stoptol test, projected step / multiplicative fallback, write-back, inner counts, "
+                       "convergence flag, inexact rule, outer stop) is computed in exact rationals and compared with the returned model, kktViolations, "
+                       "nInnerIters; the line search's own decisions (descent test, sufficient decrease, fallback) stay oracles because they compare "
+                       "float log-likelihood values at ties",
+                       "L-BFGS two-loop direction get_search_dir_pqnr: transliterated (Model/C11Lbfgs.v) and compared on direct calls (op lbfgs_dir); proved "
+                       "about it only the rank-1 statements C11_lbfgs_dir_1d_zero / _mem1; the L-BFGS pair bookkeeping of tt_cp_apr_pqnr is modelled "
+                       "(lbfgs_scan) and compared on every pqnr run (op pqnr_f1_state), nothing proved about it",
                        "logarithm in the objective (math.log recomputation in the harness)",
                        "likelihood improvement over the starting guess: sampled, not proved",
                        "purity (data / guess unchanged, result not aliased): observed on every run"]
 ASSUMPTIONS = ["model entries converted exactly float -> rational (signs are exact)",
                "objective compared at 1e-9 relative; -inf objectives (a positive count where the model is exactly 0) must agree as -inf; "
                "+inf / nan objectives are failures",
-               "runs that abort with the known C11-F1 assertion are skipped in ops pqnr_result / overspec / rerun / sp_degenerate (reported by pqnr_completes)",
+               "runs that abort with the known C11-F1 assertion are skipped in ops pqnr_result / overspec / rerun / sp_degenerate; they are judged by "
+               "pqnr_completes (fails ONLY on that exact assertion; attributed to C11-F1) and pqnr_f1_state (the assertion must occur exactly in the solver "
+               "state the bookkeeping model predicts; unattributed); any other exception or wrong value of a pqnr run is reported unattributed",
+               "the recorder relies on the local variable names iteration / n / jj / i of tt_cp_apr_pdnr / tt_cp_apr_pqnr and on the positional signature of "
+               "tt_linesearch_prowsubprob (a rename makes the check fail loudly, not silently)",
+               "replay compares at 1e-9 relative: pyttb computes the state in floats, the model in exact rationals from the same recorded oracle answers; sparse "
+               "holders with explicitly stored zeros are not replayed (their row-empty rule is 'no stored entry', the model's is 'all values zero')",
                "theorems over an abstract ordered commutative ring given by Section hypotheses; division, Newton and L-BFGS steps are oracles",
                "maxiters >= 1 and maxinneriters >= 1 (with 0 the Python loops leave their index variables unbound; not covered by the property text)"]
 EXPLANATION = ("op mu_model ties the model the theorems are about to the code: its final state denotes the returned tensor and its "
@@ -56,7 +75,10 @@ EXPLANATION = ("op mu_model ties the model the theorems are about to the code: i
                "dead components; C11_objective_pairing: the dense double loop over to_tenmat([1]) of data and model = the sum over all "
                "subscripts; C11_loglik_sparse_terms / C11_loglik_sparse: the sparse branch of tt_loglikelihood (gather at the stored subscripts) = the "
                "log-likelihood by definition on the denoted tensor (op ll_sp checks the model's row sums exactly against a direct call); "
-               "C11_phi_sparse: sparse Pi/Phi = the dense definition on den_sp; C11_bookkeeping: KKT list length = iterations performed <= maxiters, entries >= 0.")
+               "C11_phi_sparse: sparse Pi/Phi = the dense definition on den_sp; C11_bookkeeping (a corollary of C11_mu_nonneg): KKT list length = iterations "
+               "performed <= maxiters, entries >= 0; C11_rows_replay_nonneg: the Qc table-oracle instance that is replayed side by side satisfies the sign "
+               "contracts, so C11_rows_nonneg / _inner_bound apply to exactly what is executed; C11_lbfgs_dir_1d_zero / _mem1: in the transliterated L-BFGS "
+               "direction a rank-1 row with memory 3 gets direction exactly 0 at inner iteration 1 or 2 (mechanism of C11-F1), with memory 1 the secant step.")
 
 
 # ---------------------------------------------------------------- generators
@@ -224,6 +246,9 @@ def gen_cases(rng, tier):
                  "order": rng.choice(["sorted", "random"]), "sseed": rng.randrange(10 ** 6)}
             cases.append(Case("mu_model", a, True))
     cases += _gen_w4(rng, big)
+    for c in cases:          # exact-rational replay of a recorded PDNR / PQNR run: cost grows steeply with the number of recorded
+        if c.op in ("cp_apr", "pqnr_result") and c.args.get("alg") in ("pdnr", "pqnr"):      # gradients + line searches
+            c.args["replay_max"] = 100 if big else 150
     return cases
 
 
@@ -648,6 +673,29 @@ def _ll_sp_harness(o, subs, vals):
     return rows, msum, tgen.exact(math.fsum(v * math.log(q) for v, q in zip(vals, rows) if v != 0) - float(msum))
 
 
+def _normal_form_exact(o):
+    """exact (Fraction) image of ktensor.normalize(weight_factor=0, normtype=1) of an observed model: what tt_loglikelihood evaluates.
+    Whether the call normalised the caller's object in place (old behaviour) or a copy (cp_apr.py since c01a61b) the observed model
+    maps to the same normal form up to rounding; Coq checks that it denotes the tensor of the model passed in."""
+    w = [Fraction(x) for x in o["weights"]]
+    F = [[[Fraction(x) for x in row] for row in U] for U in o["factors"]]
+    for U in F:
+        for r in range(len(w)):
+            c = sum((abs(row[r]) for row in U), Fraction(0))
+            if c > 0:
+                for row in U:
+                    row[r] = row[r] / c
+            w[r] = w[r] * c
+    for r in range(len(w)):
+        if w[r] < 0:
+            w[r] = -w[r]
+            for row in F[0]:
+                row[r] = -row[r]
+        for row in F[0]:
+            row[r] = row[r] * w[r]
+    return {"weights": [Fraction(1)] * len(w), "factors": F}
+
+
 def _known_f1(o):
     return o.get("exc") == "AssertionError" and "L-BFGS first iterate is bad" in o.get("msg", "")
 
@@ -751,10 +799,11 @@ def coq_check(c, o):
         if not all(_finite(x) for x in flat):
             return "false"
         subs, vals = tgen.dense_to_sparse(a["shape"], a["data"], random.Random(a["sseed"]), a["order"])
-        rows, msum, fh = _ll_sp_harness(o, subs, vals)
+        on = _normal_form_exact(o)          # the model in the normal form the function evaluates (observed after the call, normalised exactly)
+        rows, msum, fh = _ll_sp_harness(on, subs, vals)
         K = (f"(mkK {gqlist([Fraction(x) for x in a['gw']])} ["
              + "; ".join(gqmat([[Fraction(x, a['gden']) for x in row] for row in f]) for f in a["gf"]) + "])")
-        e = f"ll_sp_ok tol9 {_gqsparse(a['shape'], subs, vals)} {K} {_gk(o)} {gqlist(rows)} {gq(msum)} && {gbool(o['pure'])}"
+        e = f"ll_sp_ok tol9 {_gqsparse(a['shape'], subs, vals)} {K} {_gk(on)} {gqlist(rows)} {gq(msum)} && {gbool(o['pure'])}"
         for x, y in ((o["f"], fh), (fh, o["ll"])):       # reported = harness evaluation of the model's terms = brute force over all subscripts
             if _finite(x) and _finite(y):
                 e += f" && qclose tol9 {gq(x)} {gq(y)}"
@@ -813,7 +862,8 @@ def coq_check(c, o):
     e += (f" && kkt_ok {k1} 1 && kkt_ok {k2} 2 && kkt_ok {k3} 3 && is_prefix tol9 {k1} {k2} && is_prefix tol9 {k2} {k3}"
           f" && Nat.eqb {o['nkkt']} (length {kk}) && Nat.eqb {o['ninner']} {o['nkkt']} && Nat.eqb {o['ntimes']} {o['nkkt']}")
     e += _e_bookkeeping(a, o)
-    if "trace" in o and not (a.get("sparse") and a.get("stored") is not None):
+    if "trace" in o and not (a.get("sparse") and a.get("stored") is not None) and \
+            len(o["trace"]["gtab"]) + len(o["trace"]["stab"]) <= a.get("replay_max", 100):
         e += _e_replay(a, o)
     return e
 
